@@ -96,7 +96,8 @@ def build(repo, d, log):
     os.makedirs(gen, exist_ok=True)
     sh([sys.executable, os.path.join(HERE, 'gen_entries.py'), facts_path, gen, str(NSHARDS)], 'gen-entries')
     sh([sys.executable, os.path.join(HERE, 'gen_tables.py'), facts_path, os.path.join(gen, 'tables_main.cpp'),
-        os.path.join(gen, 'entries_index.json'), os.path.join(gen, 'layout_main.cpp')], 'gen-tables')
+        os.path.join(gen, 'entries_index.json'), os.path.join(gen, 'layout_main.cpp'),
+        os.path.join(gen, 'textio_main.cpp')], 'gen-tables')
     syminc = prepare_model_headers(repo, d)
     cxx = ['g++', '-std=c++17', '-O0', '-w', '-I', HERE, '-I', syminc]
     jobs = []
@@ -109,6 +110,9 @@ def build(repo, d, log):
                   os.path.join(d, 'tables')], 'compile-tables'))
     jobs.append((['g++', '-std=c++17', '-O0', '-w', '-I', inc, os.path.join(gen, 'layout_main.cpp'), '-o',
                   os.path.join(d, 'layout')], 'compile-layout'))
+    jobs.append((['g++', '-std=c++17', '-O1', '-w', '-fno-fast-math', '-ffp-contract=off', '-fsanitize=address,undefined',
+                  '-fno-sanitize-recover=all', '-D_GLIBCXX_ASSERTIONS', '-I', inc,
+                  os.path.join(gen, 'textio_main.cpp'), '-o', os.path.join(d, 'textio')], 'compile-textio'))
     errors = []
 
     def run(job):
